@@ -83,6 +83,12 @@ pub struct Profile {
     /// choreographed executions: worker 0 releases a root and collects with a conditional stall
     /// once that release is due; the other workers start when it is stalled
     pub choreo: bool,
+    /// choreographed executions of kind 1: instead of releasing a root, the controller prepares a
+    /// destructed object whose weak count fell to zero (try_dealloc pending) and was revived from a
+    /// WeakSnapshot and republished in weak root 0; worker 0 only collects
+    pub choreo_weak_revive: bool,
+    /// no weak handles are created during prefill (objects start without the WEAKED flag)
+    pub no_pool: bool,
 }
 
 pub struct Shared {
@@ -124,6 +130,8 @@ struct WSnapReg {
 struct GuardSlot {
     g: Option<Guard>,
     serial: u64,
+    /// epoch the participant announced when this guard was taken (C16 observer)
+    announced: usize,
 }
 
 #[derive(Clone, Copy, Debug)]
@@ -178,7 +186,7 @@ impl T {
             rid: vec![None; NRC],
             wk: (0..NWK).map(|_| Weak::null()).collect(),
             wkid: vec![None; NWK],
-            guards: (0..NG).map(|_| GuardSlot { g: None, serial: 0 }).collect(),
+            guards: (0..NG).map(|_| GuardSlot { g: None, serial: 0, announced: 0 }).collect(),
             snaps: (0..NSN).map(|_| None).collect(),
             wsnaps: (0..NWS).map(|_| None).collect(),
             iter: None,
@@ -210,6 +218,20 @@ impl T {
     fn rc_sub(&self, id: Option<u32>) {
         if let Some(i) = id {
             l_add(&obj(i).rc, -1);
+        }
+    }
+    /// Structural invariant behind C03: the destruction path frees the block at once unless the
+    /// WEAKED flag says that weak owners may exist, so a weak owner without the flag is unprotected.
+    fn check_weaked(&self, w: &Weak<VNode>, via: &str) {
+        if let Some(c) = w.verif_counts() {
+            mon::eval("deref-cookie");
+            if !c.weaked || c.weak == 0 {
+                mon::violation(
+                    "C03",
+                    &format!("C03|weak-holder-unprotected|via={}", via),
+                    format!("{} returned a Weak but the count word is {:?} (no WEAKED flag / zero weak count): the block would be freed at destruction", via, c),
+                );
+            }
         }
     }
     fn wk_add(&self, id: Option<u32>) {
@@ -263,7 +285,54 @@ impl T {
         debug_assert!(self.guards[slot].g.is_none());
         let g = circ::cs();
         let serial = mon::guard_register(circ::verif::local_id(&g));
-        self.guards[slot] = GuardSlot { g: Some(g), serial };
+        let announced = circ::verif::local_state(&g).map_or(0, |s| s.announced);
+        self.guards[slot] = GuardSlot { g: Some(g), serial, announced };
+    }
+
+    /// C16 / C14 observer: while a guard is live the thread is pinned, the guard count matches and
+    /// the announced epoch is the one the guard was taken in and at most one behind the global one.
+    fn check_guards(&self, after: &str) {
+        let live = self.live_guards();
+        if live.is_empty() {
+            return;
+        }
+        mon::eval("guard-model");
+        let st = match circ::verif::local_state(self.guards[live[0]].g.as_ref().unwrap()) {
+            Some(s) => s,
+            None => return,
+        };
+        if !st.pinned || st.guard_count != live.len() {
+            mon::observer_violation(
+                "C16",
+                "C16|pinned-state-mismatch|rc-program",
+                format!("after {}: {} live guards but pinned={} guard_count={}", after, live.len(), st.pinned, st.guard_count),
+            );
+        }
+        for &s in &live {
+            if self.guards[s].announced != st.announced {
+                mon::observer_violation(
+                    "C16",
+                    "C16|announced-epoch-moved-under-live-guard",
+                    format!("after {}: guard g{} was taken at epoch {} but the participant now announces {}", after, s, self.guards[s].announced, st.announced),
+                );
+            }
+        }
+        let g = circ::verif::global_epoch();
+        if g < st.announced || g - st.announced > 1 {
+            mon::observer_violation(
+                "C14",
+                "C14|pinned-participant-sees-more-than-one-advance",
+                format!("after {}: pinned at {} but the global epoch is {}", after, st.announced, g),
+            );
+        }
+    }
+    /// after a sole-guard reactivation the participant may announce a newer epoch
+    fn reannounce(&mut self) {
+        let live = self.live_guards();
+        if live.len() == 1 {
+            let a = circ::verif::local_state(self.guards[live[0]].g.as_ref().unwrap()).map_or(0, |s| s.announced);
+            self.guards[live[0]].announced = a;
+        }
     }
     fn invalidate(&mut self, slot: usize) {
         for i in 0..NSN {
@@ -529,6 +598,7 @@ impl T {
             let k = table[self.rng.weighted(&ws)].0;
             if self.try_op(k) {
                 sched::note(k as u64 + 0x100 * self.t as u64);
+                self.check_guards("an op");
                 return;
             }
         }
@@ -887,6 +957,7 @@ impl T {
                     mon::violation("C03", "C03|downgrade-differs", "Rc::downgrade returned a different pointer".into());
                 }
                 self.wk_add(id);
+                self.check_weaked(&w, "Rc::downgrade");
                 let j = self.rng.below(NWK as u64) as usize;
                 self.lg(format!("w{} = r{}.downgrade() (#{:?})", j, i, id));
                 self.set_wk(j, w, id);
@@ -911,6 +982,7 @@ impl T {
                 let [a, b] = ws;
                 self.wk_add(id);
                 self.wk_add(id);
+                self.check_weaked(&a, "Rc::weak_many");
                 self.lg(format!("w0,w1 = r{}.weak_many::<2>() (#{:?})", i, id));
                 self.set_wk(0, a, id);
                 self.set_wk(1, b, id);
@@ -925,6 +997,7 @@ impl T {
                 let w = self.wk[i].clone();
                 let id = self.wkid[i];
                 self.wk_add(id);
+                self.check_weaked(&w, "Weak::clone");
                 let j = self.rng.below(NWK as u64) as usize;
                 self.lg(format!("w{} = w{}.clone() (#{:?})", j, i, id));
                 self.set_wk(j, w, id);
@@ -1013,6 +1086,7 @@ impl T {
                     mon::violation("C03", "C03|counted-differs", "WeakSnapshot::counted returned a different pointer".into());
                 }
                 self.wk_add(id);
+                self.check_weaked(&w, "WeakSnapshot::counted");
                 let i = self.rng.below(NWK as u64) as usize;
                 self.lg(format!("w{} = ws{}.counted() (#{:?})", i, j, id));
                 self.set_wk(i, w, id);
@@ -1282,6 +1356,7 @@ impl T {
                 self.lg(format!("g{}.reactivate()", s));
                 self.guards[s].g.as_mut().unwrap().reactivate();
                 self.guards[s].serial = mon::guard_register(circ::verif::local_id(self.guards[s].g.as_ref().unwrap()));
+                self.reannounce();
                 true
             }
             K::ReactivateAfter => {
@@ -1302,6 +1377,7 @@ impl T {
                     }
                 });
                 self.guards[s].serial = mon::guard_register(circ::verif::local_id(self.guards[s].g.as_ref().unwrap()));
+                self.reannounce();
                 true
             }
             K::Flush => {
